@@ -52,7 +52,7 @@ def one(n):
         shutil.rmtree(tmp, ignore_errors=True)
 
 
-resf = V + "/seeded/RESULTS.json"
+resf = os.environ.get("H8_RESULTS", V + "/seeded/RESULTS.json")
 results = json.load(open(resf)) if os.path.exists(resf) else {}
 with ThreadPoolExecutor(J) as ex:
     for n, hit, err in ex.map(one, names):
@@ -68,6 +68,6 @@ with ThreadPoolExecutor(J) as ex:
             flagged = sorted(set(flagged) | (set(old_.get("flagged_by", [])) - {target}))
         results[n] = {"property": target, "kind": "benign-refactoring" if benign else "seeded-fault", "flagged_by": flagged, "checker_errors": errored,
                       "caught": (not flagged) if benign else (target in flagged if target else bool(flagged)),
-                      "first_report": {p: [l[:220] for l in hit[p][1][:2]] for p in flagged + errored}}
+                      "first_report": {p: [l[:220] for l in hit[p][1][:2]] for p in flagged + errored if p in hit}}
         print(n, "BENIGN" if benign else "fault", "target", target, "flagged by", flagged, "errors", errored, "" if results[n]["caught"] else "   <<<<<< NOT AS EXPECTED", flush=True)
         json.dump(results, open(resf, "w"), indent=1)
